@@ -109,7 +109,7 @@ func parseDataURI(s string) (*dataURI, bool) {
 }
 
 // embedFn tells what the registered text/css minifier makes of a payload.
-type embedFn func(payload []byte) ([]byte, bool)
+type embedFn func(mediatype string, payload []byte) ([]byte, bool)
 
 func urlDiff(in, out string, embedCSS embedFn) string {
 	if !hasDataScheme(in) {
@@ -128,7 +128,7 @@ func urlDiff(in, out string, embedCSS embedFn) string {
 	}
 	want := di.Payload
 	if di.Type == "text/css" && embedCSS != nil {
-		w, ok := embedCSS(di.Payload)
+		w, ok := embedCSS(strings.Join(append([]string{di.Type}, di.Params...), ";"), di.Payload)
 		if !ok {
 			return "" // embedded minifier failed: behaviour belongs to C11's error clause, not judged here
 		}
